@@ -101,7 +101,7 @@ func ruleR08_1(c *Check) {
 	r.DomAll(d, "levelHandler.tables cleared", selStore(w.Field("badger.levelHandler.tables")), 0, add, 0)
 	// the change set handed to addChanges is the one built from the inputs and outputs
 	bcs := f.Sites(selCallName(w, "badger.buildChangeSet"))
-	r.Exists(len(bcs) == 1, f, "change set built by buildChangeSet", nil, "runCompactDef does not call buildChangeSet")
+	r.Exists(len(bcs) >= 1, f, "change set built by buildChangeSet", nil, "runCompactDef does not call buildChangeSet")
 }
 
 func ruleR08_2(c *Check) {
@@ -519,7 +519,7 @@ func ruleR09_1(c *Check) {
 		}
 		return true
 	})
-	r.Exists(len(crcCmp) == 1, f, "CRC comparison present", nil, "no comparison against hashReader.Sum32()")
+	r.Exists(len(crcCmp) >= 1, f, "CRC comparison present", nil, "no comparison against hashReader.Sum32()")
 	r.ExitsNeed(f, "CRC comparison", selNode(crcCmp...), 0, exitSuccess)
 	// EOF mapping after each io.ReadFull
 	rf := w.Func("io.ReadFull")
@@ -557,7 +557,7 @@ func ruleR09_1(c *Check) {
 		}
 		return true
 	})
-	r.Exists(len(bound) == 1, f, "key length bound", nil, "no `h.klen > bound` early exit")
+	r.Exists(len(bound) >= 1, f, "key length bound", nil, "no `h.klen > bound` early exit")
 	makes := selPred("make([]byte…)", func(w *World, fn *Fn, n ast.Node) bool {
 		call, ok := n.(*ast.CallExpr)
 		if !ok {
@@ -664,7 +664,7 @@ func ruleR09_3(c *Check) {
 		arg := w.Origin(m, s.(*ast.CallExpr).Args[0])
 		r.Check(w.isCallTo(arg, w.Func("badger.ReplayManifestFile")), m, "MANIFEST truncated to the replay offset", s, "Truncate argument is "+short(w, arg))
 	}
-	r.Exists(n == 1, m, "MANIFEST truncation present", nil, "helpOpenOrCreateManifestFile does not truncate the MANIFEST")
+	r.Exists(n >= 1, m, "MANIFEST truncation present", nil, "helpOpenOrCreateManifestFile does not truncate the MANIFEST")
 	// every success exit after replay passes the truncate unless readOnly
 	var roParam *types.Var
 	sig := m.Obj.Type().(*types.Signature)
@@ -1308,7 +1308,7 @@ func ruleR17_3(c *Check) {
 		}
 		return true
 	})
-	r.Exists(len(cmp) == 1, f, "checksum comparison present", nil, "no crc32.Checksum comparison")
+	r.Exists(len(cmp) >= 1, f, "checksum comparison present", nil, "no crc32.Checksum comparison")
 	r.DomAll(f, "applyChangeSet", selCallName(w, "badger.applyChangeSet"), 0, selNode(cmp...), 0)
 }
 
@@ -1431,7 +1431,7 @@ func ruleR17_6(c *Check) {
 		r.Check(w.errNilGuard(f, s, apply), f, "no rewrite when the apply failed", s, "the rewrite is reachable although applyChangeSet returned an error")
 	}
 	rp := w.F("badger.ReplayManifestFile")
-	r.Exists(len(rp.Sites(selCall(apply))) == 1, rp, "replay applies with applyChangeSet", nil, "ReplayManifestFile does not use applyChangeSet")
+	r.Exists(len(rp.Sites(selCall(apply))) >= 1, rp, "replay applies with applyChangeSet", nil, "ReplayManifestFile does not use applyChangeSet")
 }
 
 func propC17(c *Check) {
